@@ -13,7 +13,7 @@ RULE = ('SCML and SCML_Supervised on generated triplet sets (n_triplets >= d) x 
         'triplets, draws the same batches and runs its own dual-averaging reference, and compares the weights with the '
         'reference at the checkpoint of lowest objective.  Non-trivial = >= 2 checkpoints with different objectives and a '
         'non-zero weight vector; distinct by canonical case.')
-ASSUMPTIONS = ['weights compared at 1e-8 relative; if two checkpoints tie within 1e-12 either is accepted',
+ASSUMPTIONS = ['weights compared at 1e-8 * (1 + offset/1e3) relative, offset = distance of the point cloud from the origin in units of its spread (0, 1e3, 1e4, 1e5); if two checkpoints tie within 1e-12 either is accepted',
                'for SCML_Supervised the triplets are those of the public Constraints.generate_knntriplets helper (C07/C08 decide their soundness)']
 NAMES = ['SCML', 'SCML_Supervised']
 
@@ -28,13 +28,18 @@ def case_strategy(draw, name):
               logbeta=draw(st.floats(-6, -1, allow_nan=False)), loggamma=draw(st.floats(-3, 0, allow_nan=False)),
               batch_size=draw(st.integers(1, 6)), max_iter=max_iter, output_iter=draw(st.integers(1, max_iter)),
               seed=draw(st.integers(0, 10 ** 6)), aseed=draw(st.integers(0, 999)), n_trip=draw(st.integers(d, 30)),
-              kg=draw(st.integers(1, 3)), ki=draw(st.integers(1, 4)))
+              kg=draw(st.integers(1, 3)), ki=draw(st.integers(1, 4)),
+              offset=draw(st.sampled_from([0.0, 0.0, 1e3, 1e4, 1e5])))
 
 
 def check_c15(case, stats):
   name = case['est']
   data = gen.Data(case['desc'])
   d = data.d
+  if case.get('offset'):
+    # the same point cloud far from the origin (offset / spread up to 3e4): the scheme only uses differences
+    data.X = data.X + case['offset'] * float(np.abs(data.X).max()) * np.linspace(1.0, 2.0, d)
+    data._c = {}
   beta, gamma = 10.0 ** case['logbeta'], 10.0 ** case['loggamma']
   params = dict(beta=beta, gamma=gamma, batch_size=case['batch_size'], max_iter=case['max_iter'],
                 output_iter=case['output_iter'], random_state=case['seed'])
@@ -110,7 +115,11 @@ def check_c15(case, stats):
   ok = False
   for it, obj, wr in cps:
     if obj <= best + 1e-12 * max(1.0, abs(best)):
-      if np.abs(wr - w).max() <= 1e-8 * max(np.abs(wr).max(), 1e-300) + 1e-300:
+      # far from the origin the library's projections (X B^T, then differences) carry eps * offset/spread of relative
+      # error (measured worst case 3e-9 at 1e4, 2e-8 at 1e5 on the unchanged tree; an expanded-squares variant gives
+      # 7e-6 and 3e-3): the tolerance grows linearly with that ratio
+      wtol = 1e-8 * (1.0 + case.get('offset', 0.0) / 1e3)
+      if np.abs(wr - w).max() <= wtol * max(np.abs(wr).max(), 1e-300) + 1e-300:
         ok = True
   if not ok:
     first_best = [c for c in cps if c[1] == best][0]
@@ -120,7 +129,7 @@ def check_c15(case, stats):
   distinct_objs = len(set(round(c[1], 12) for c in cps))
   stats.case(case, distinct_objs >= 2 and nact > 0, [name, 'basis:' + case['basis'], 'all-zero' if nact == 0 else
                                                      ('lowrank' if nact < d else 'fullrank'),
-                                                     'checkpoints>=2' if len(cps) >= 2 else 'checkpoints=1'])
+                                                     'checkpoints>=2' if len(cps) >= 2 else 'checkpoints=1', 'offset:%g' % case.get('offset', 0.0)])
 
 
 CHECKS = {'check_c15': check_c15}
